@@ -417,7 +417,9 @@ func c09DrawBandwidth(t *rapid.T, fx *c09Fixture, c *c09Case) {
 // c09GenConstructive builds an assignment that satisfies every rule, with
 // most free variables sitting on a boundary, and then violates the rules of a
 // drawn plan (0..2 rules) by exactly one unit (mostly).
-func c09GenConstructive(t *rapid.T, fx *c09Fixture, transit bool) *c09Case {
+func c09GenConstructive(t *rapid.T, fx *c09Fixture, transit bool,
+	inb *models.InboundFee) *c09Case {
+
 	c := &c09Case{Mode: "constructive"}
 	c09DrawBandwidth(t, fx, c)
 
@@ -494,7 +496,7 @@ func c09GenConstructive(t *rapid.T, fx *c09Fixture, transit bool) *c09Case {
 	c.Base = c09DrawBase(t)
 	c.Rate = c09DrawRate(t)
 	if !transit {
-		c.InBase, c.InRate = c09DrawInbound(t)
+		c.InBase, c.InRate = c09Inbound(t, inb)
 		req := bigref.RequiredFee(c.policy(), c.inbound(), a)
 		minIn := bigref.MinIncoming(c.policy(), c.inbound(), a)
 		switch {
@@ -606,7 +608,9 @@ func c09GenConstructive(t *rapid.T, fx *c09Fixture, transit bool) *c09Case {
 // heights that wrap, outgoing amounts up to 2^64-1, unsatisfiable
 // configurations) and then solves one or two variables so that a drawn
 // comparison sits at -1/0/+1 of equality.
-func c09GenFree(t *rapid.T, fx *c09Fixture, transit bool) *c09Case {
+func c09GenFree(t *rapid.T, fx *c09Fixture, transit bool,
+	inb *models.InboundFee) *c09Case {
+
 	c := &c09Case{Mode: "free"}
 	c09DrawBandwidth(t, fx, c)
 
@@ -654,7 +658,7 @@ func c09GenFree(t *rapid.T, fx *c09Fixture, transit bool) *c09Case {
 	}
 
 	if !transit {
-		c.InBase, c.InRate = c09DrawInbound(t)
+		c.InBase, c.InRate = c09Inbound(t, inb)
 		switch p := c09Pct(t, "in_k"); {
 		case p < 35:
 			c.InAmt = c09Around(t, "in_out", c.OutAmt)
@@ -737,11 +741,28 @@ func c09GenFree(t *rapid.T, fx *c09Fixture, transit bool) *c09Case {
 }
 
 func c09Gen(t *rapid.T, fx *c09Fixture, transit bool) *c09Case {
+	return c09GenWith(t, fx, transit, nil)
+}
+
+// c09GenWith is c09Gen with the inbound fee fixed to inb when non-nil (the
+// inbound fee is a property of the incoming link, so several HTLCs arriving
+// over one link share it).
+func c09GenWith(t *rapid.T, fx *c09Fixture, transit bool,
+	inb *models.InboundFee) *c09Case {
+
 	if c09Pct(t, "mode") < 65 {
-		return c09GenConstructive(t, fx, transit)
+		return c09GenConstructive(t, fx, transit, inb)
 	}
 
-	return c09GenFree(t, fx, transit)
+	return c09GenFree(t, fx, transit, inb)
+}
+
+func c09Inbound(t *rapid.T, inb *models.InboundFee) (int32, int32) {
+	if inb != nil {
+		return inb.Base, inb.Rate
+	}
+
+	return c09DrawInbound(t)
 }
 
 // ---------------------------------------------------------------------------
